@@ -92,9 +92,25 @@ var _ generator.Consensus = (*clockConsensus)(nil)
 // whose scripted execution verdict is "invalid" is answered without touching the mock (a real
 // application reverts an invalid transaction; the mock would keep it in its executed list and the
 // dry-run state root of the generator would contain a transaction that is not in the block).
+//
+// InsertAssets answers with the assets set by setInsertAssets (the mock itself inserts none): a
+// script asset there makes the forged block carry scripted application behaviour - e.g. a
+// validator / threshold change answered by AfterTransactionsExecute - both while the generator
+// dry-runs the block and when the node executes it.
 type genABI struct {
 	*node.MockABI
 	log *[]abiCall
+	ins *[]*blockchain.BlockAsset
+}
+
+func (a genABI) setInsertAssets(assets []*blockchain.BlockAsset) { *a.ins = assets }
+
+func (a genABI) InsertAssets(req *labi.InsertAssetsRequest) (*labi.InsertAssetsResponse, error) {
+	res, err := a.MockABI.InsertAssets(req)
+	if err != nil {
+		return res, err
+	}
+	return &labi.InsertAssetsResponse{Assets: append([]*blockchain.BlockAsset{}, (*a.ins)...)}, nil
 }
 
 // abiCall is one VerifyTransaction / ExecuteTransaction request of the generator and its verdict.
@@ -104,7 +120,9 @@ type abiCall struct {
 	ok   bool // the generator keeps the transaction after this answer
 }
 
-func newGenABI(m *node.MockABI) genABI { return genABI{MockABI: m, log: &[]abiCall{}} }
+func newGenABI(m *node.MockABI) genABI {
+	return genABI{MockABI: m, log: &[]abiCall{}, ins: &[]*blockchain.BlockAsset{}}
+}
 
 func (a genABI) takeLog() []abiCall {
 	r := *a.log
